@@ -28,15 +28,18 @@ def gen(rng):
         if len(ss) >= 2 and 'frames' not in e:
             e['frames'] = [{'subcategorizationFrame': f'fr {e["id"]} X', 'senses': [ss[-1]['id']]},
                            {'subcategorizationFrame': f'fr {e["id"]} Y', 'senses': [s['id'] for s in ss]}]
-    # graph with several lowest common hypernyms
-    g = G.random_graph(rng, 7)
-    g['pos'] = ['n'] * g['n']
-    n = g['n']
-    g['edges'] += [[0, n - 1, 'hypernym']] if n > 1 else []
-    if n >= 4:
-        g['edges'] += [[0, 2, 'hypernym'], [0, 3, 'hypernym'], [1, 2, 'hypernym'], [1, 3, 'hypernym']]
+    # graph with two lowest common hypernyms of equal depth reached by paths of different length
+    # (0 and 1 share {2, 3}); extra nodes hang below the core
+    edges = [[0, 2, 'hypernym'], [0, 5, 'hypernym'], [5, 3, 'hypernym'], [1, 2, 'hypernym'], [1, 3, 'instance_hypernym'],
+             [2, 4, 'hypernym'], [3, 4, 'hypernym']]
+    n = 6 + rng.randint(1, 3)
+    for x in range(6, n):
+        for t in rng.sample(range(0, x), rng.randint(1, 3)):
+            edges.append([x, t, 'hypernym'])
+    rng.shuffle(edges)
+    g = G.mk(n, edges)
     g['words'] = {f'w{i}': [i] for i in range(n)}
-    g['words']['amb'] = list(range(min(3, n)))
+    g['words']['amb'] = [0, 1, 6]
     # a broken lexicon whose W404 has targets missing several reverse relations
     gb = docs.Gen(rng, hostile=0.0)
     broken = gb.lexicon('v', '1', '1.1', n_syn=5, n_ent=3)
@@ -45,15 +48,24 @@ def gen(rng):
         y.setdefault('relations', []).extend([{'target': ys[4]['id'], 'relType': t, 'meta': None} for t in ('hypernym', 'mero_part', 'causes', 'similar')])
     dumpres = docs.resource([docs.Gen(rng, hostile=0.2).lexicon('d', '1', '1.3')], '1.3')
     forms = [e['lemma']['writtenForm'] for e in a['entries']]
-    queries = forms[:4] + [f + 's' for f in forms[:3]] + ['axes', 'wolves', 'nope']
-    return {'resources': [docs.resource([W['a:1'], W['e:1'], W['b:1']], '1.0')],
+    queries = forms[:4] + [f + 's' for f in forms[:3]] + ['axes', 'wolves', 'nope', 'runs', 'lights']
+    def ent(i, form):
+        return {'id': f'm-{i}', 'meta': None, 'lemma': {'writtenForm': form, 'partOfSpeech': 'n'},
+                'senses': [{'id': f'm-{i}-s', 'synset': f'm-ss-{i}', 'meta': None}]}
+    names = ['axis', 'ax', 'axe', 'box', 'boxis']
+    rng.shuffle(names)
+    m = {'id': 'm', 'version': '1', 'label': 'morph', 'language': 'en', 'email': 'a@b.c', 'license': 'L', 'meta': None,
+         'entries': [ent(nm, nm) for nm in names],
+         'synsets': [{'id': f'm-ss-{nm}', 'ili': '', 'partOfSpeech': 'n', 'meta': None} for nm in names]}
+    return {'resources': [docs.resource([W['a:1'], W['e:1'], W['b:1'], m], '1.0')],
             'graph': g, 'corpus': ['w0', 'w1', 'amb', 'amb', 'w2', 'zzz'], 'broken': broken, 'dumpres': dumpres, 'queries': queries,
-            'selections': [{}, {'lexicon': 'a:1'}, {'lexicon': 'b:1', 'expand': 'e:1'}, {'lang': 'en'}]}
+            'selections': [{}, {'lexicon': 'a:1'}, {'lexicon': 'b:1', 'expand': 'e:1'}, {'lexicon': 'b:1', 'expand': ''}, {'lang': 'en'}, {'lang': 'de'}]}
 
 
 def run_child(path, seed):
-    env = dict(os.environ, PYTHONHASHSEED=str(seed))
-    p = subprocess.run([sys.executable, str(leanside.ROOT / 'harness' / 'seedbattery.py'), path], env=env,
+    env = dict(os.environ, PYTHONHASHSEED=str(abs(seed)))
+    # a negative seed asks for the same battery with the selections visited in reverse order
+    p = subprocess.run([sys.executable, str(leanside.ROOT / 'harness' / 'seedbattery.py'), path] + (['reversed'] if seed < 0 else []), env=env,
                        stdout=subprocess.PIPE, stderr=subprocess.PIPE, text=True, timeout=900)
     if p.returncode != 0:
         return {'error': p.stderr[-1500:]}
@@ -128,7 +140,7 @@ MATCHERS = {}
 
 def run(ctx):
     scs = [gen(ctx.rng) for _ in range(3 if ctx.tier == 'quick' else 12)]
-    seeds = [0, 1, 2, 3] if ctx.tier == 'quick' else list(range(16))
+    seeds = [0, 1, 2, 3, -1] if ctx.tier == 'quick' else list(range(16)) + [-1, -2]
     process(ctx, scs, seeds)
     ctx.sample({'graph': scs[-1]['graph'], 'selections': scs[-1]['selections'], 'seeds': seeds, 'queries': scs[-1]['queries']})
 
